@@ -89,7 +89,7 @@ func HarnessC08Sign() {
 	e := svPick("embeds", svParam("embeds", 1)+1)
 	a := svPick("atts", svParam("atts", 1)+1)
 	menc := hxEnc(svPick("menc", 3))
-	variant := svPick("variant", svParam("variants", 7))
+	variant := svPick("variant", svParam("variants", 8))
 	n := svParam("n", 2)
 	m := NewMsg(WithEncoding(menc))
 	_ = m.From("a@b.c")
@@ -119,6 +119,8 @@ func HarnessC08Sign() {
 	case 6:
 		vname = "cc-ignored-invalid"
 		m.CcIgnoreInvalid("not an address")
+	case 7:
+		vname = "after-WriteToSkipMiddleware"
 	}
 	content := append([]byte("signed body "), svBytes("c", n)...)
 	content = append(content, []byte("\r\n")...)
@@ -155,6 +157,11 @@ func HarnessC08Sign() {
 	tag := "[" + vname + "] "
 	if p == 0 {
 		tag = "[" + vname + ", no body part] "
+	}
+	if variant == 7 {
+		// another public render entry point used before WriteTo
+		_, _ = m.WriteToSkipMiddleware(&hxRecW{}, MiddlewareType("none"))
+		hxSigned = nil
 	}
 	w1 := &hxRecW{}
 	if _, err := m.WriteTo(w1); err != nil {
